@@ -81,7 +81,7 @@ def run(tier):
     zones_by['dateutil'] = dz
     nz = 0
     nchanges = 0
-    rendered = None
+    rendered = {}
     for flavour in ('pytz', 'dateutil'):
         for (a, b, h) in ranges:
             if flavour == 'dateutil' and (a, b, h) != ranges[0] and tier == 'quick':
@@ -89,7 +89,7 @@ def run(tier):
             tag = '%s_%d_%d_%d' % (flavour, a, b, h)
             sp = os.path.join(work, 'real_%s.json' % tag)
             op = os.path.join(work, 'realout_%s.json' % tag)
-            json.dump({'flavour': flavour, 'zones': zones_by[flavour], 'start': a, 'until': b, 'interval': h}, open(sp, 'w'))
+            json.dump({'flavour': flavour, 'zones': zones_by[flavour], 'start': a, 'until': b, 'interval': h, 'full': (a, b, h) == ranges[0]}, open(sp, 'w'))
             rc, out, err, _ = common.run_cmd([common.PY, DRV, 'real', sp, op], env=env, timeout=6000)
             if rc != 0:
                 chk.violation('%s:real-crash' % flavour, 'generator driver failed on real zones: %s' % err[-1200:], {'stderr': err[-2500:]})
@@ -119,8 +119,22 @@ def run(tier):
                     chk.violation('%s:%s:monthly-sample' % (flavour, z), 'no sample item for the first of %s' % miss[:4], {'zone': z})
                 if [y for y in range(a, b) if y not in ye]:
                     chk.violation('%s:%s:year-end-sample' % (flavour, z), 'no year-end item for %s' % [y for y in range(a, b) if y not in ye][:4], {'zone': z})
-                if flavour == 'pytz' and (a, b, h) == ranges[0] and rec.get('full_items') and rendered is None and z == 'America/Los_Angeles':
-                    rendered = {zz: rr['full_items'] for zz, rr in zr.items() if rr.get('full_items')}
+            if (a, b, h) == ranges[0]:
+                # data set to render: a set of zones that between them show every (UTC offset, DST offset) pair and every
+                # abbreviation the library exhibits anywhere (greedy cover); every zone in the thorough tier
+                full = {zz: rr['full_items'] for zz, rr in sorted(zr.items()) if rr.get('full_items')}
+                feats = {zz: {('o', it['total_offset'], it['dst_offset']) for it in its} | {('a', it['abbrev']) for it in its} | {('t', it['type']) for it in its} for zz, its in full.items()}
+                todo = set().union(*feats.values()) if feats else set()
+                pick = [zz for zz in ('America/Los_Angeles', 'Europe/Dublin', 'Asia/Dhaka', 'Australia/Lord_Howe', 'Africa/Casablanca') if zz in full]
+                for zz in pick:
+                    todo -= feats[zz]
+                while todo and tier == 'quick':
+                    best = max(sorted(feats), key=lambda q: len(feats[q] & todo))
+                    pick.append(best)
+                    todo -= feats[best]
+                if tier != 'quick':
+                    pick = sorted(full)
+                rendered[flavour] = {zz: full[zz] for zz in pick}
             dp = os.path.join(work, 'sampler_data_%s.json' % tag)
             json.dump({'zones': data}, open(dp, 'w'))
             r = common.run_tlc('Sampler_Data', 'Sampler_Data.cfg', env={'SAMPLER_DATA': dp}, workers=1, timeout=3000)
@@ -146,8 +160,10 @@ def run(tier):
                     chk.notes.append('%s %s: %d transition items without a partner one minute away' % (flavour, d['zone'], len(zv['unpaired'])))
     # ---- 3. rendering to the C++ validation tables preserves every number and string
     nren = 0
-    if rendered:
-        rd = os.path.join(work, 'render')
+    nrz = 0
+    for rflavour, rendered in sorted(rendered.items()):
+        nrz += len(rendered)
+        rd = os.path.join(work, 'render-' + rflavour)
         os.makedirs(rd)
         drv = os.path.join(work, 'render.py')
         open(drv, 'w').write('''import json, sys, logging
@@ -160,11 +176,11 @@ ArduinoValidationGenerator(invocation='x', tz_version='x', scope='extended', db_
         json.dump(rendered, open(os.path.join(rd, 'td.json'), 'w'))
         rc, out, err, _ = common.run_cmd([common.PY, drv, os.path.join(rd, 'td.json'), rd], env=env, timeout=600)
         if rc != 0:
-            chk.violation('render:crash', 'ArduinoValidationGenerator failed: %s' % err[-1000:], {})
+            chk.violation('render:%s:crash' % rflavour, 'ArduinoValidationGenerator failed: %s' % err[-1000:], {})
         else:
             syms = re.findall(r'extern const testing::ValidationData (kValidationData\w+);', open(os.path.join(rd, 'validation_data.h')).read())
             names = sorted(rendered)
-            norm = lambda n: re.sub(r'[^0-9a-zA-Z]', '_', n)
+            norm = lambda n: re.sub(r'[^0-9a-zA-Z_]', '_', n.replace('+', '_PLUS_'))
             lst = ''.join('V(kValidationData%s, "%s")\n' % (norm(n), n) for n in names)
             open(os.path.join(rd, 'valread_list.inc'), 'w').write(lst)
             exe = os.path.join(rd, 'valread')
@@ -172,7 +188,7 @@ ArduinoValidationGenerator(invocation='x', tz_version='x', scope='extended', db_
                    os.path.join(common.HARNESS, 'valread.cpp'), os.path.join(rd, 'validation_data.cpp'), '-o', exe]
             p = subprocess.run(cmd, stdout=subprocess.PIPE, stderr=subprocess.STDOUT, text=True)
             if p.returncode != 0:
-                chk.violation('render:does-not-compile', 'rendered validation tables do not compile: %s' % p.stdout[-1200:], {})
+                chk.violation('render:%s:does-not-compile' % rflavour, 'rendered validation tables do not compile: %s' % p.stdout[-1200:], {})
             else:
                 rc, out, err, _ = common.run_cmd([exe], timeout=300)
                 back = json.loads(out)
@@ -183,9 +199,9 @@ ArduinoValidationGenerator(invocation='x', tz_version='x', scope='extended', db_
                     nren += len(want)
                     if got != want:
                         j = next((i for i in range(min(len(got or []), len(want))) if got[i] != want[i]), 0)
-                        chk.violation('render:%s' % n, 'rendered item %d of %s reads back as %s, the collected item is %s' % (j, n, (got or [None])[j] if got else None, want[j]), {'zone': n})
+                        chk.violation('render:%s:%s' % (rflavour, n), 'rendered item %d of %s reads back as %s, the collected item is %s' % (j, n, (got or [None])[j] if got else None, want[j]), {'zone': n})
     chk.add(states=st + rg.distinct, transitions=tr + rg.generated, traces_validated_against_impl=ncases, model_cases_replayed=ncases, real_zone_runs=nz,
-            library_changes_audited=nchanges, rendered_items_read_back=nren,
+            library_changes_audited=nchanges, rendered_items_read_back=nren, rendered_zones=nrz,
             rule='TLC: the sampling/bisection algorithm over every step function with <= 2 changes on a window of 3 intervals (+ remainder), refuted in general and proved under EnvOK; every enumerated case replayed through the real TestDataGenerator classes of compare_pytz and compare_dateutil with a fake tzinfo (recorded transitions, items and tags must equal the model\'s); every zone of the installed pytz (and the zones.txt list for dateutil) for ranges %s: each change of the library\'s own transition table bracketed (judged by TLC), monthly and year-end samples present, every item equal to what the library reports at its epoch; rendering through ArduinoValidationGenerator compiled and read back' % (ranges,))
     chk.assume('installed pytz / dateutil as found in /venv; their private transition tables are "the library\'s own transition table"; replayed cases start the scan late in the year (a sample of cases is also run over the whole year and must agree)')
     return chk.finish()
